@@ -55,9 +55,9 @@ prop("C14",
 # C15 Schema.Check
 prop("C15",
      family="check",
-     mc=lambda tier: [("MC_Check", "MC_Check_quick.cfg"), ("MC_Check", "MC_Check_under.cfg")] +
+     mc=lambda tier: [("MC_Check", "MC_Check_quick.cfg"), ("MC_Check", "MC_Check_under.cfg"), ("MC_Check", "MC_Check_ft.cfg")] +
      _t(tier, [], [("MC_Check", "MC_Check_thorough.cfg")]),
-     gen=lambda tier: [("MC_Check", "Gen_Check_quick.cfg"), ("MC_Check", "Gen_Check_under.cfg")] +
+     gen=lambda tier: [("MC_Check", "Gen_Check_quick.cfg"), ("MC_Check", "Gen_Check_under.cfg"), ("MC_Check", "Gen_Check_ft.cfg")] +
      _t(tier, [], [("MC_Check", "Gen_Check_thorough.cfg")]),
      driver=lambda tier, seed, gen, out: ["check", "-gen", gen, "-out", out, "-seed", str(seed)] +
      _t(tier, ["-sample", "40000", "-random", "5000"], ["-random", "200000"]),
